@@ -19,7 +19,19 @@ use crate::oracle::groups;
 
 #[derive(Clone, Debug, Serialize, Deserialize)]
 pub enum Case {
-    Lib { group: String, shape: ShapeSpec, lj: bool, replicas: u64, steps: u64, kt: f64, max_step: f64, jitter: u64 },
+    Lib {
+        group: String,
+        shape: ShapeSpec,
+        lj: bool,
+        replicas: u64,
+        steps: u64,
+        kt: f64,
+        max_step: f64,
+        jitter: u64,
+        /// well depth of the state's LJ particles (public field; the constructors give 1)
+        #[serde(default)]
+        lj_eps: Option<f64>,
+    },
     Cli { pre: Vec<String>, pos: Vec<String> },
 }
 
@@ -202,7 +214,7 @@ fn run_decoy(group: &str, shape: &ShapeSpec, lj: bool) {
 }
 
 pub fn check_lib(c: &Case, st: &mut Stats) {
-    if let Case::Lib { group, shape, lj, replicas, steps, kt, max_step, jitter } = c {
+    if let Case::Lib { group, shape, lj, replicas, steps, kt, max_step, jitter, lj_eps } = c {
         let wg = match lib_group(group) {
             Ok(g) => g,
             Err(e) => {
@@ -212,7 +224,23 @@ pub fn check_lib(c: &Case, st: &mut Stats) {
         };
         run_decoy(group, shape, *lj);
         if *lj {
-            if let Some(s) = shape.lj() {
+            if let Some(mut s) = shape.lj() {
+                // a second decoy: the very same molecule but for one field of its particles
+                // (well depth), scored first on the thread that computes the reference
+                let mut twin = s.clone();
+                for a in twin.items.iter_mut() {
+                    a.epsilon = if lj_eps.is_some() { 1. } else { 2.5 };
+                }
+                if let Ok(t) = PotentialState::from_group(twin, &wg) {
+                    let mut b = BuildOptimiser::default();
+                    b.steps(30).inner_steps(15).kt_start(0.1).kt_ratio(Some(0.)).max_step_size(0.05).seed(54321);
+                    let _ = b.build().optimise_state(t).score();
+                }
+                if let Some(e) = lj_eps {
+                    for a in s.items.iter_mut() {
+                        a.epsilon = *e;
+                    }
+                }
                 if let Ok(s0) = PotentialState::from_group(s, &wg) {
                     lib_diff(s0, c, *replicas, *steps, *kt, *max_step, *jitter, st)
                 }
@@ -327,7 +355,7 @@ pub fn cli_cases(n: usize) -> Vec<Case> {
 }
 
 pub fn run(ctx: &Ctx) {
-    ctx.set_rule("library: clones of one state (all groups, hard and LJ) are optimised with seeds 0..R sequentially (reference, twice, second pass in reverse order) and then concurrently on rayon pools of 1,2,3,5,8,16 threads and on raw threads, each clone wrapped in a Spy that sleeps/yields inside score() on a seeded schedule; every result's JSON must equal the reference byte for byte; the original is re-serialised continuously by a watcher thread during the runs and compared before/after. CLI: the real binary for 8 argvs under RAYON_NUM_THREADS in {1,2,3,5,8,16} x jitter seeds (hook-injected 0-2 ms delays at stage starts) x repeats: .json, .svg and logged score byte-identical; the hook log gives the replica->thread map and completion order of each run (distinct schedules are counted; fewer than 4 makes the run inconclusive). Thorough tier adds ThreadSanitizer, Miri and memcheck legs (reports = violations). Non-trivial = library cases in which replicas overlapped in time, argvs for which >= 2 distinct schedules were observed");
+    ctx.set_rule("library: clones of one state (all groups, hard and LJ, LJ well depths 0.25-3.5; decoys of the same shape name with another geometry and of the same geometry with another well depth run first on the reference thread) are optimised with seeds 0..R sequentially (reference, twice, second pass in reverse order) and then concurrently on rayon pools of 1,2,3,5,8,16 threads and on raw threads, each clone wrapped in a Spy that sleeps/yields inside score() on a seeded schedule; every result's JSON must equal the reference byte for byte; the original is re-serialised continuously by a watcher thread during the runs and compared before/after. CLI: the real binary for 8 argvs under RAYON_NUM_THREADS in {1,2,3,5,8,16} x jitter seeds (hook-injected 0-2 ms delays at stage starts) x repeats: .json, .svg and logged score byte-identical; the hook log gives the replica->thread map and completion order of each run (distinct schedules are counted; fewer than 4 makes the run inconclusive). Thorough tier adds ThreadSanitizer, Miri and memcheck legs (reports = violations). Non-trivial = library cases in which replicas overlapped in time, argvs for which >= 2 distinct schedules were observed");
     ctx.assume("schedules are sampled, not enumerated; absence of sanitizer reports says nothing about paths not driven");
     let n_lib = ctx.tier.pick(2u64, 16u64);
     par_shards(ctx, 9, 16, |_, rng, st| {
@@ -343,6 +371,7 @@ pub fn run(ctx: &Ctx) {
                 kt: [0., 0.1, 1.][rng.gen_range(0, 3)],
                 max_step: [0.01, 0.1, 0.5][rng.gen_range(0, 3)],
                 jitter: rng.gen_range(1, 1_000_000),
+                lj_eps: if lj && rng.gen_bool(0.5) { Some([0.25, 2., 3.5][rng.gen_range(0, 3)]) } else { None },
             };
             check_lib(&c, st);
         }
@@ -350,7 +379,7 @@ pub fn run(ctx: &Ctx) {
     {
         let mut st = Stats::new();
         for (i, g) in ["p2mm", "p2mg", "p2gg"].iter().enumerate() {
-            let c = Case::Lib { group: g.to_string(), shape: ShapeSpec::Circle, lj: true, replicas: 4, steps: 700, kt: 0., max_step: 0.05, jitter: 1000 + i as u64 + ctx.seed };
+            let c = Case::Lib { group: g.to_string(), shape: ShapeSpec::Circle, lj: true, replicas: 4, steps: 700, kt: 0., max_step: 0.05, jitter: 1000 + i as u64 + ctx.seed, lj_eps: if i == 1 { Some(2.) } else { None } };
             check_lib(&c, &mut st);
         }
         ctx.merge(st);
